@@ -46,7 +46,12 @@ def mutate_tree(rng, t):
     if t[0] == "leaf":
         rec = copy.deepcopy(t[1])
         r = rng.random()
-        if r < 0.5 and (rec["actuals"] or rec["akw"]):
+        if rec["fn"] == "items_contain" and rec["akw"] and r < 0.5:
+            # the keyword NAMES of items_contain are user data: rename one, keep its value
+            k = rng.choice(list(rec["akw"]))
+            new = rng.choice([n for n in gen.IDENT_KEYS if n not in rec["akw"]])
+            rec["akw"] = {(new if q == k else q): v for q, v in rec["akw"].items()}
+        elif r < 0.5 and (rec["actuals"] or rec["akw"]):
             if rec["actuals"]:
                 j = rng.randrange(len(rec["actuals"]))
                 rec["actuals"][j] = mutate_value(rng, rec["actuals"][j])
@@ -110,6 +115,20 @@ def mutate_part(rng, p):
             x = q[s]
             q[s] = ("prim", mutate_value(rng, x[1])) if x[0] == "prim" else mutate_tree(rng, x)
     return q
+
+
+def items_probe(x, acc):
+    """the keyword mappings of every items_contain leaf anywhere in a recipe (they are the items that tell
+    two such leaves apart)"""
+    if isinstance(x, dict):
+        if x.get("fn") == "items_contain" and isinstance(x.get("akw"), dict) and x["akw"]:
+            acc.append(dict(x["akw"]))
+        for v in x.values():
+            items_probe(v, acc)
+    elif isinstance(x, (list, tuple)):
+        for v in x:
+            items_probe(v, acc)
+    return acc
 
 
 def classes(sigs):
@@ -220,6 +239,10 @@ def make_family(rng, kind):
                 y[j]["cond"] = mutate_tree(rng, y[j]["cond"])
             vs.append(y)
     roles = ["x", "rebuilt", "commuted"] + ["mutant"] * (len(vs) - 3)
+    ip = items_probe(vs, [])
+    if ip:
+        uniq = [d for j, d in enumerate(ip) if d not in ip[:j]][:6]
+        probes = probes + [uniq, {str(j): d for j, d in enumerate(uniq)}]
     return vs, roles, probes
 
 
